@@ -53,6 +53,12 @@ class Report:
     def __init__(self, prop, tier, level):
         self.prop, self.tier, self.level = prop, tier, level
         self.t0 = time.time()
+        import glob
+        for old in glob.glob(os.path.join(ROOT, "replays", f"{prop}-*.json")):
+            try:
+                os.remove(old)
+            except OSError:
+                pass
         self.findings = [f for f in load_findings() if f.prop == prop]
         self.by_sig = {f.sig: f for f in self.findings}
         self.new = []
@@ -61,6 +67,33 @@ class Report:
         self.assumptions = []
         self.samples = []
         self._seen_new = set()
+        self.feature_totals = {}
+        self.triage = bool(os.environ.get("VERIF_TRIAGE"))
+
+    def seen(self, features):
+        if self.triage:
+            for ft in features:
+                self.feature_totals[ft] = self.feature_totals.get(ft, 0) + 1
+
+    def print_triage(self):
+        by_clause = {}
+        for v in self.new:
+            by_clause.setdefault(v["clause"], []).append(v)
+        for clause, vs in sorted(by_clause.items(), key=lambda kv: -len(kv[1])):
+            print(f"#### clause {clause}: {len(vs)} violations")
+            remaining = list(vs)
+            while remaining:
+                cnt = {}
+                for v in remaining:
+                    for ft in v["features"]:
+                        cnt[ft] = cnt.get(ft, 0) + 1
+                if not cnt:
+                    print(f"     (no features) {len(remaining)} e.g.", json.dumps(remaining[0]["case"], default=str)[:300], "::", remaining[0]["detail"][:200])
+                    break
+                ratio, c, ft = max((min(c / max(self.feature_totals.get(ft, c), 1), 1.0), c, ft) for ft, c in cnt.items())
+                ex = next(v for v in remaining if ft in v["features"])
+                print(f"     {ratio:5.2f} {c:5d}/{self.feature_totals.get(ft, 0):5d}  {ft}   e.g. {json.dumps(ex['case'].get('query', ex['case']), default=str)[:200]} :: {ex['detail'][:150]!r}")
+                remaining = [v for v in remaining if ft not in v["features"]]
 
     def violation(self, clause, features, detail, case):
         sigs = [clause] + [f"{clause}|{ft}" for ft in sorted(features or [])]
@@ -69,7 +102,6 @@ class Report:
             if f is not None:
                 f.hits += 1
                 return "known"
-        key = (clause, tuple(sorted(features or [])))
         self.new.append({"clause": clause, "features": sorted(features or []), "detail": str(detail)[:2000], "case": case})
         return "new"
 
@@ -125,6 +157,8 @@ class Report:
                     print(f"   clause={clause} features={list(feats)} cases={len(vs)} :: {v['detail'][:300]}")
                 shown += 1
             rc = 1
+        if self.triage:
+            self.print_triage()
         ok = validate_evidence(evpath)
         print(f"[{self.prop}] tier={self.tier} wall={wall:.1f}s new_violations={len(self.new)} known_hit={len(known)} evidence={'ok' if ok else 'INVALID'}")
         if not ok:
